@@ -2,37 +2,100 @@
 C09 — All Toeplitz evaluation methods compute the same banded product: the closed statements, in the faithful list
 denotation (FuraxProofs/Sem/ListSem.lean, FuraxProofs/Sem/ToeplitzList.lean).
 
-A `SymmetricBandToeplitzOperator` leaf whose band array is un-batched (`p.vals.shape = [K]`, `toepK p.vals = some K`)
-is no longer an uninterpreted map of the environment: `den E (.leaf u .toeplitz p)` IS the banded product, leaf by
-leaf and row by row along the last axis; `p.str` (the method) and `p.ints` (`[[fft_size or -1]]`) are irrelevant, and
-each of the model's four evaluation functions computes that vector.  `toeplitzOK p` is the validity of such a leaf
-(well-formed band of `K ≥ 1` values, every leaf of rank `≥ 1`).
+A `SymmetricBandToeplitzOperator` leaf whose band array has a last axis (`p.vals.shape = bs ++ [K]`,
+`toepK p.vals = some K`: un-batched `bs = []`, or BATCHED, in practice `bs = [ndet]`, one band row per detector) is
+not an uninterpreted map of the environment: `den E (.leaf u .toeplitz p)` IS the banded product, leaf by leaf and,
+independently, row by row along the last axis — the batch row `b` of a leaf of shape `s ++ [l]` with the band row
+`toepBandAt K p.vals (s ++ [l]) b` that NumPy broadcasting of `bs` against `s` assigns to it
+(`jnp.vectorize(signature='(n),(k)->(n)')`; `band_row_is_broadcast`, `band_row_one_per_row`, `band_row_shared`);
+`p.str` (the method) and `p.ints` (`[[fft_size or -1]]`) are irrelevant, and each of the model's four evaluation
+functions computes that vector.  `toeplitzOK p` is the validity of such a leaf: well-formed band array of shape
+`bs ++ [K]`, `K ≥ 1`, every leaf of rank `≥ 1` with leading axes the batch axes `bs` broadcast TO (`Bc`).
+
+The statements for an un-batched band (`p.vals.shape = [K]`, the only case interpreted before) are kept, word for
+word, under the names `…_unbatched`; they are the special case `toepBandAt K p.vals _ b = toepBand p.vals`.
 -/
 import FuraxProofs.Props.C09
 import FuraxProofs.Sem.ToeplitzList
 namespace Furax.C09
 open Furax ListSem Toeplitz
 
-/-- **the denotation is the banded product**: for the leaf `li` (shape `s ++ [l]`) at offset `off` of the input
-structure, row `b`, position `i`: `(T x)[off + b·l + i] = Σ_j [|i−j| < K] band|i−j| · x[off + b·l + j]` — every
-input list, every `K` (also `K > l`), every method string and FFT size -/
+/-! ### the band row of a batch row -/
+
+/-- the band used on batch row `b` of a leaf of shape `ds ++ [l]` is row `b` of
+`numpy.broadcast_to(band_values, ds ++ [K])` (the model's `Tensor.broadcastTo`, the mechanism of the rotation angles
+`angleAt`) -/
+theorem band_row_is_broadcast (K : Nat) (vals : Tensor Rat) (bs ds : List Nat) (l b k : Nat)
+    (hs : vals.shape = bs ++ [K]) (hlen : bs.length ≤ ds.length) (hb : b < prodNat ds) (hk : k < K) :
+    toepBandAt K vals (ds ++ [l]) b k = ((castT vals).broadcastTo (ds ++ [K])).data.getD (b * K + k) 0 :=
+  toepBandAt_eq_broadcastTo K vals bs ds l b k hs hlen hb hk
+
+/-- `band_values.shape = ds ++ [K]` on data of shape `ds ++ [l]` (e.g. `(ndet, K)` on `(ndet, nsamp)`): row `b`
+uses band row `b` -/
+theorem band_row_one_per_row (K : Nat) (vals : Tensor Rat) (ds : List Nat) (l b : Nat) (hs : vals.shape = ds ++ [K])
+    (hb : b < prodNat ds) (k : Nat) : toepBandAt K vals (ds ++ [l]) b k = toepBand vals (b * K + k) := by
+  unfold toepBandAt
+  rw [hs, bandRow_same ds K l b hb]
+
+/-- `band_values.shape = [1, …, 1, K]` or `[K]`: every row uses the same band -/
+theorem band_row_shared (K : Nat) (vals : Tensor Rat) (bs ds : List Nat) (l b : Nat) (hs : vals.shape = bs ++ [K])
+    (h1 : ∀ d ∈ bs, d = 1) (hlen : bs.length ≤ ds.length) (hb : b < prodNat ds) :
+    toepBandAt K vals (ds ++ [l]) b = toepBand vals := by
+  funext k
+  unfold toepBandAt
+  rw [hs, bandRow_ones bs ds K l b h1 hlen hb, Nat.zero_mul, Nat.zero_add]
+
+theorem band_row_unbatched (K : Nat) (vals : Tensor Rat) (hs : vals.shape = [K]) (shape : List Nat) (b : Nat) :
+    toepBandAt K vals shape b = toepBand vals :=
+  toepBandAt_unbatched K vals hs shape b
+
+/-! ### the denotation is the banded product -/
+
+/-- **the denotation is the banded product, independently for every batch row**: for the leaf `li` (shape
+`s ++ [l]`) at offset `off` of the input structure, row `b`, position `i`:
+`(T x)[off + b·l + i] = Σ_j [|i−j| < K] band_b|i−j| · x[off + b·l + j]` with `band_b` the band row of `b` — every
+input list, every `K` (also `K > l`), every band array `bs ++ [K]` (batched or not), every method string and FFT size -/
 theorem denotation_is_banded_product (E : Env) (u : Nat) (p : Params) (K : Nat) (hK : toepK p.vals = some K) (x : V)
     (pre : List LeafS) (li : LeafS) (post : List LeafS) (hleaves : p.inS.leaves = pre ++ li :: post)
     (s : List Nat) (l : Nat) (hshape : li.shape = s ++ [l]) (b i : Nat) (hb : b < prodNat s) (hi : i < l) :
     (den E (.leaf u .toeplitz p) x).getD ((pre.map LeafS.size).sum + b * l + i) 0 =
-      toep (K - 1) l (toepBand p.vals) (fun j => x.getD ((pre.map LeafS.size).sum + b * l + j) 0) i :=
+      toep (K - 1) l (toepBandAt K p.vals (s ++ [l]) b)
+        (fun j => x.getD ((pre.map LeafS.size).sum + b * l + j) 0) i :=
   den_toeplitz_entry E u p K hK x pre li post hleaves s l hshape b i hb hi
 
-/-- **the method and the FFT size do not change the denotation** -/
+/-- the un-batched case, as stated before batched bands were interpreted (`p.vals.shape = [K]` is what
+`toepK p.vals = some K` meant then) -/
+theorem denotation_is_banded_product_unbatched (E : Env) (u : Nat) (p : Params) (K : Nat) (hs : p.vals.shape = [K])
+    (x : V) (pre : List LeafS) (li : LeafS) (post : List LeafS) (hleaves : p.inS.leaves = pre ++ li :: post)
+    (s : List Nat) (l : Nat) (hshape : li.shape = s ++ [l]) (b i : Nat) (hb : b < prodNat s) (hi : i < l) :
+    (den E (.leaf u .toeplitz p) x).getD ((pre.map LeafS.size).sum + b * l + i) 0 =
+      toep (K - 1) l (toepBand p.vals) (fun j => x.getD ((pre.map LeafS.size).sum + b * l + j) 0) i :=
+  den_toeplitz_entry_unbatched E u p K hs x pre li post hleaves s l hshape b i hb hi
+
+/-- **the method and the FFT size do not change the denotation** (`toepK p.vals ≠ none`: the band array has a last
+axis; batched or not) -/
 theorem denotation_ignores_method (E : Env) (u : Nat) (p : Params) (hK : toepK p.vals ≠ none)
     (method : String) (ints : List (List Int)) :
     den E (.leaf u .toeplitz { p with str := method, ints := ints }) = den E (.leaf u .toeplitz p) :=
   den_toeplitz_method_irrelevant E u p hK method ints
 
-/-- **the four evaluation functions compute the denotation**, row by row, for every `K ≥ 1` (also `K > l`) and every
-admissible FFT size -/
+/-- **the four evaluation functions compute the denotation**, row by row with the band row of the row, for every
+`K ≥ 1` (also `K > l`), every admissible FFT size, every band array `bs ++ [K]` -/
 theorem all_methods_compute_denotation (E : Env) (u : Nat) (p : Params) (K : Nat) (hK1 : 1 ≤ K)
     (hK : toepK p.vals = some K) (x : V)
+    (pre : List LeafS) (li : LeafS) (post : List LeafS) (hleaves : p.inS.leaves = pre ++ li :: post)
+    (s : List Nat) (l : Nat) (hshape : li.shape = s ++ [l]) (b i : Nat) (hb : b < prodNat s) (hi : i < l) :
+    let band : Nat → ℝ := toepBandAt K p.vals (s ++ [l]) b
+    let row : Nat → ℝ := fun j => x.getD ((pre.map LeafS.size).sum + b * l + j) 0
+    let out : ℝ := (den E (.leaf u .toeplitz p) x).getD ((pre.map LeafS.size).sum + b * l + i) 0
+    applyDense (K - 1) l band row i = out ∧
+    applyDirect (K - 1) l band row i = out ∧
+    applyFft (K - 1) l band row i = out ∧
+    ∀ F, 2 * K - 1 ≤ F → applyOverlapSave F (K - 1) l band row i = out :=
+  den_toeplitz_methods E u p K hK1 hK x pre li post hleaves s l hshape b i hb hi
+
+theorem all_methods_compute_denotation_unbatched (E : Env) (u : Nat) (p : Params) (K : Nat) (hK1 : 1 ≤ K)
+    (hs : p.vals.shape = [K]) (x : V)
     (pre : List LeafS) (li : LeafS) (post : List LeafS) (hleaves : p.inS.leaves = pre ++ li :: post)
     (s : List Nat) (l : Nat) (hshape : li.shape = s ++ [l]) (b i : Nat) (hb : b < prodNat s) (hi : i < l) :
     let row : Nat → ℝ := fun j => x.getD ((pre.map LeafS.size).sum + b * l + j) 0
@@ -41,28 +104,56 @@ theorem all_methods_compute_denotation (E : Env) (u : Nat) (p : Params) (K : Nat
     applyDirect (K - 1) l (toepBand p.vals) row i = out ∧
     applyFft (K - 1) l (toepBand p.vals) row i = out ∧
     ∀ F, 2 * K - 1 ≤ F → applyOverlapSave F (K - 1) l (toepBand p.vals) row i = out :=
-  den_toeplitz_methods E u p K hK1 hK x pre li post hleaves s l hshape b i hb hi
+  den_toeplitz_methods_unbatched E u p K hK1 hs x pre li post hleaves s l hshape b i hb hi
 
 /-- **whatever configuration the constructor accepts**: the evaluation function of the leaf's own method and FFT size
-returns the entries of the denotation on every row -/
+returns the entries of the denotation on every row, with the band row of that row -/
 theorem accepted_configuration_computes_denotation (E : Env) (u : Nat) (p : Params) (K : Nat) (hK1 : 1 ≤ K)
     (hK : toepK p.vals = some K) (r : Option Nat) (hc : toeplitzCtor p.str K (fftArg p) = .ok r) (x : V)
+    (pre : List LeafS) (li : LeafS) (post : List LeafS) (hleaves : p.inS.leaves = pre ++ li :: post)
+    (s : List Nat) (l : Nat) (hshape : li.shape = s ++ [l]) (b : Nat) (hb : b < prodNat s) :
+    ∃ y, evalMethod p.str (r.getD 0) (K - 1) l (toepBandAt K p.vals (s ++ [l]) b)
+        (fun j => x.getD ((pre.map LeafS.size).sum + b * l + j) 0) = some y ∧
+      ∀ i, i < l → y i = (den E (.leaf u .toeplitz p) x).getD ((pre.map LeafS.size).sum + b * l + i) 0 :=
+  den_toeplitz_ctor E u p K hK1 hK r hc x pre li post hleaves s l hshape b hb
+
+theorem accepted_configuration_computes_denotation_unbatched (E : Env) (u : Nat) (p : Params) (K : Nat) (hK1 : 1 ≤ K)
+    (hs : p.vals.shape = [K]) (r : Option Nat) (hc : toeplitzCtor p.str K (fftArg p) = .ok r) (x : V)
     (pre : List LeafS) (li : LeafS) (post : List LeafS) (hleaves : p.inS.leaves = pre ++ li :: post)
     (s : List Nat) (l : Nat) (hshape : li.shape = s ++ [l]) (b : Nat) (hb : b < prodNat s) :
     ∃ y, evalMethod p.str (r.getD 0) (K - 1) l (toepBand p.vals)
         (fun j => x.getD ((pre.map LeafS.size).sum + b * l + j) 0) = some y ∧
       ∀ i, i < l → y i = (den E (.leaf u .toeplitz p) x).getD ((pre.map LeafS.size).sum + b * l + i) 0 :=
-  den_toeplitz_ctor E u p K hK1 hK r hc x pre li post hleaves s l hshape b hb
+  den_toeplitz_ctor_unbatched E u p K hK1 hs r hc x pre li post hleaves s l hshape b hb
 
-/-- a valid leaf (`toeplitzOK`) has `K ≥ 1` bands read from `p.vals.data`, and every leaf has a last axis -/
+/-! ### validity -/
+
+/-- a valid leaf (`toeplitzOK`): band array of shape `bs ++ [K]`, `K ≥ 1`, `prod bs · K` values; every leaf
+`ds ++ [l]` with `bs` broadcasting to `ds`; for every batch row `b < prod ds` the band row exists and its `K` values
+are stored values of `p.vals.data` (no default is read) -/
 theorem valid_leaf_facts (p : Params) (h : toeplitzOK p) :
+    ∃ bs K, 1 ≤ K ∧ p.vals.shape = bs ++ [K] ∧ toepK p.vals = some K ∧ p.vals.data.length = prodNat bs * K ∧
+      ∀ li ∈ p.inS.leaves, ∃ ds l, li.shape = ds ++ [l] ∧ Bc bs ds ∧
+        ∀ b, b < prodNat ds → bandRow p.vals.shape li.shape b < prodNat bs ∧
+          ∀ k, k < K → ∃ hk : bandRow p.vals.shape li.shape b * K + k < p.vals.data.length,
+            toepBandAt K p.vals li.shape b k = ((p.vals.data[bandRow p.vals.shape li.shape b * K + k] : Rat) : ℝ) :=
+  toeplitzOK_facts p h
+
+/-- the un-batched validity, as stated before: `K ≥ 1` bands read from `p.vals.data`, every leaf has a last axis -/
+theorem valid_leaf_facts_unbatched (p : Params) (h : toeplitzUnbatchedOK p) :
     ∃ K, 1 ≤ K ∧ toepK p.vals = some K ∧ p.vals.data.length = K ∧
       (∀ k (hk : k < p.vals.data.length), toepBand p.vals k = ((p.vals.data[k] : Rat) : ℝ)) ∧
       ∀ li ∈ p.inS.leaves, ∃ s l, li.shape = s ++ [l] :=
-  toeplitzOK_facts p h
+  toeplitzUnbatchedOK_facts p h
+
+/-- the un-batched validity is the special case "band array of rank 1" of `toeplitzOK` -/
+theorem unbatched_valid_iff (p : Params) : toeplitzUnbatchedOK p ↔ toeplitzOK p ∧ p.vals.shape.length = 1 :=
+  toeplitzUnbatchedOK_iff p
+
+/-! ### symmetry -/
 
 /-- **T is symmetric, in the denotation**: `⟨T x, y⟩ = ⟨x, T y⟩`, and `T.T` denotes the same map as `T` — no
-assumption on the environment -/
+assumption on the environment; batched bands included (every batch row has a symmetric band matrix of its own) -/
 theorem denotation_self_adjoint (E : Env) (u : Nat) (p : Params) (hK : toepK p.vals ≠ none) (x y : V)
     (hx : x.length = p.inS.size) (hy : y.length = p.inS.size) :
     dot (den E (.leaf u .toeplitz p) x) y = dot x (den E (.leaf u .toeplitz p) y) :=
@@ -71,5 +162,43 @@ theorem denotation_self_adjoint (E : Env) (u : Nat) (p : Params) (hK : toepK p.v
 theorem transpose_denotes_self (E : Env) (u : Nat) (p : Params) (hK : toepK p.vals ≠ none) :
     denT E (.leaf u .toeplitz p) = den E (.leaf u .toeplitz p) :=
   denT_toeplitz_eq_den E u p hK
+
+/-! ### the hypotheses are satisfiable: a batched leaf, `band_values.shape = (2, 2)` on data `(2, 3)` -/
+
+open ToeplitzExample in
+example : toeplitzOK tB ∧ toepK tB.vals = some 2 ∧ toepK tB.vals ≠ none ∧ ¬ toeplitzUnbatchedOK tB ∧
+    toeplitzCtor tB.str 2 (fftArg tB) = .ok none :=
+  ⟨tB_ok, rfl, by decide, by rintro ⟨⟨K, _, hs, _⟩, _⟩; simp [tB] at hs, tB_ctor⟩
+
+open ToeplitzExample in
+/-- `denotation_is_banded_product` on it: row 1 uses the band row `[2, 7]` -/
+example (E : Env) (x : V) :
+    (den E (.leaf 1 .toeplitz tB) x).getD 3 0 = 2 * x.getD 3 0 + 7 * x.getD 4 0 := by
+  have h1 := denotation_is_banded_product E 1 tB 2 rfl x [] ⟨[2, 3], .f64⟩ [] rfl [2] 3 rfl 1 0 (by decide) (by decide)
+  simp only [List.map_nil, List.sum_nil, Nat.zero_add, Nat.one_mul, Nat.add_zero] at h1
+  have hb : toepBandAt 2 tB.vals ([2] ++ [3]) 1 = fun k => toepBand tB.vals (1 * 2 + k) :=
+    funext fun k => band_row_one_per_row 2 tB.vals [2] 3 1 rfl (by decide) k
+  rw [h1, hb]
+  simp [toep, sumRange, Toeplitz.dist, toepBand, tB, List.range_succ]
+
+open ToeplitzExample in
+example (E : Env) (x : V) :=
+  all_methods_compute_denotation E 1 tB 2 (by decide) rfl x [] ⟨[2, 3], .f64⟩ [] rfl [2] 3 rfl 1 0 (by decide) (by decide)
+
+open ToeplitzExample in
+example (E : Env) (x : V) :=
+  accepted_configuration_computes_denotation E 1 tB 2 (by decide) rfl none tB_ctor x [] ⟨[2, 3], .f64⟩ [] rfl [2] 3 rfl 1
+    (by decide)
+
+open ToeplitzExample in
+example (E : Env) (x y : V) (hx : x.length = 6) (hy : y.length = 6) :
+    dot (den E (.leaf 1 .toeplitz tB) x) y = dot x (den E (.leaf 1 .toeplitz tB) y) :=
+  denotation_self_adjoint E 1 tB (by decide) x y hx hy
+
+open ToeplitzExample in
+/-- the band rows of the `(2, 1, 2)` band array on the `(2, 2, 3)` leaf are rows of `broadcast_to(band, (2, 2, 2))` -/
+example (b k : Nat) (hb : b < 4) (hk : k < 2) :
+    toepBandAt 2 tB3.vals ([2, 2] ++ [3]) b k = ((castT tB3.vals).broadcastTo ([2, 2] ++ [2])).data.getD (b * 2 + k) 0 :=
+  band_row_is_broadcast 2 tB3.vals [2, 1] [2, 2] 3 b k rfl (by decide) (by simpa [prodNat] using hb) hk
 
 end Furax.C09
